@@ -48,9 +48,21 @@ def oracle(Cx, N, maximise, idx, tol=0):
 class P(Prop):
     id = "C12"
     design_ref = "DESIGN.md section 5, C12"
-    theorems = []
+    theorems = [
+        ("TracklibVerif.Props.C12", "TV.C12.result_shape", "T1: for every matrix with >= 2 candidates and every mode the result starts at 0, ends at N-1 and is strictly increasing"),
+        ("TracklibVerif.Props.C12", "TV.C12.optimal_min", "T2: in MINIMIZE mode the summed segment cost of the result is <= that of every strictly increasing list from 0 to N-1"),
+        ("TracklibVerif.Props.C12", "TV.C12.optimal_max", "T2: in MAXIMIZE mode it is >= that of every such list"),
+        ("TracklibVerif.Props.C12", "TV.C12.table_value", "the in-place D/M table programme (run by the driver) computes the interval recursion opt; D[0,N-1] is the cost of the returned list"),
+        ("TracklibVerif.Props.C12", "TV.C12.segmentation_optimal", "T3: optimalSegmentation's result is a chain 0..size-2 optimal in the requested direction for the costs cost(track,a,b-1)"),
+        ("TracklibVerif.Props.C12", "TV.C12.segmentation_optimal_min", "T3: minimising instance"),
+        ("TracklibVerif.Props.C12", "TV.C12.segmentation_optimal_max", "T3: maximising instance"),
+        ("TracklibVerif.Props.C12", "TV.C12.simplification_selects", "T3: optimalSimplification keeps the observations selected by the MINIMISING optimalSegmentation whatever mode is (mode not forwarded: D19)"),
+        ("TracklibVerif.Props.C12", "TV.C12.simplify_free", "simplify MODE_SIMPLIFY_FREE is that selection; MODE_SIMPLIFY_FREE_MAXIMIZE raises"),
+    ]
     partial = []
-    open_statements = []
+    open_statements = ["findStopsGlobal's matrix construction (minimal enclosing circles) is not modelled: the check intercepts the matrix and mode it passes to optimalPartition and applies the oracle to that call",
+                       "the theorems are over a linearly ordered additive commutative monoid; for IEEE doubles (non-associative +) optimality up to rounding is sampled by the transfer check (1e-9 relative)",
+                       "the maximising direction of the simplification front end does not hold on this tree (finding D19, class simplification-maximise-not-forwarded)"]
     modelled = ("segmentation.optimalPartition (N = rows-1, D/M tables filled by increasing diagonals, both direction tests as written), "
                 "backtracking, backward, optimalSegmentation's matrix build; simplification.optimalSimplification (mode not forwarded) and "
                 "simplify() for MODE_SIMPLIFY_FREE / MODE_SIMPLIFY_FREE_MAXIMIZE; findStopsGlobal's call is observed (matrix and mode it passes)")
